@@ -23,6 +23,7 @@ type Expr struct {
 	Val  ssa.Value
 	Obj  types.Object // field var, global, called function
 	Fn   *ssa.Function
+	Idx  int // for "out": which argument of the call received the local's address (0 = receiver)
 }
 
 // Ops:
@@ -376,7 +377,14 @@ func (p *Prog) cellValue(root *ssa.Alloc, at ssa.Instruction, val ssa.Value, onP
 		} else {
 			cv, _ := d.call.(ssa.Value)
 			ce := p.callExpr(cv, d.call.Common(), onPath, depth+1)
-			alts = append(alts, &Expr{Op: "out", Name: ce.Name, Args: []*Expr{ce}, Val: cv, Fn: ce.Fn})
+			idx := -1
+			for i, a := range d.call.Common().Args {
+				if p.cellRoot(a) == root {
+					idx = i
+					break
+				}
+			}
+			alts = append(alts, &Expr{Op: "out", Name: ce.Name, Args: []*Expr{ce}, Val: cv, Fn: ce.Fn, Idx: idx})
 		}
 	}
 	if zero {
@@ -568,7 +576,7 @@ func (e *Expr) write(b *strings.Builder) {
 		list(e.Args, " | ")
 		b.WriteString("}")
 	case "out":
-		b.WriteString("out:")
+		fmt.Fprintf(b, "out%d:", e.Idx)
 		e.Args[0].write(b)
 	case "conv":
 		b.WriteString(e.Name + "(")
@@ -716,3 +724,23 @@ func (e *Expr) Select() (*ssa.Select, bool) {
 
 // CellRoot is the exported form of cellRoot.
 func (p *Prog) CellRoot(addr ssa.Value) *ssa.Alloc { return p.cellRoot(addr) }
+
+// ReachingStores returns the values that the stores reaching a load of a
+// local cell have stored; complete is false when the zero value or a write
+// through a call may be observed as well.
+func (p *Prog) ReachingStores(load *ssa.UnOp) (vals []ssa.Value, complete bool) {
+	root := p.cellRoot(load.X)
+	if root == nil {
+		return nil, false
+	}
+	defs, zero := p.reachingDefs(load, root)
+	complete = !zero
+	for _, d := range defs {
+		if d.store != nil {
+			vals = append(vals, d.store.Val)
+		} else {
+			complete = false
+		}
+	}
+	return vals, complete
+}
